@@ -1198,6 +1198,25 @@ def corpus_scenarios():
         snap()
         g.delete(lseid)
     run("F14", f14)
+
+    # F43: {Remove PDR 2, Create PDR 4 with the same PDI} in one modification: the creates are written to the
+    # datapath before the removes, so the delete of PDR 2's key wipes the entry just written for PDR 4
+    def f43(g, snap):
+        l = g.establish(0, npairs=1, nqers=0, chv4=False, choose=False, with_sdf=False)
+        snap()
+        s = g.sessions[l]
+        np_ = dict(s["pdrs"][2])
+        np_["id"] = 4
+        np_.pop("perm", None)
+        seq = g._seq()
+        ies = [P.grouped(P.REMOVE_PDR, P.u16(P.PDR_ID, 2)), pdr_ie(P.CREATE_PDR, np_)]
+        del s["pdrs"][2]
+        s["pdrs"][4] = np_
+        g.emit(0, P.message(P.SM_REQ, seq, ies, seid=l),
+               {"op": "mod", "seq": seq, "req": P.SM_REQ, "wf": True, "lseid": l, "expect": "accept", "kind": "replace_same_key", "markers": [], "cp_seid": s["cp_seid"]})
+        snap()
+        g.delete(l)
+    run("F43", f43)
     return out
 
 
